@@ -432,6 +432,9 @@ def _judge_repr(T):
 
 
 def _judge_resize(T):
+    """C10 (a).  A refusal must leave `state and dimension untouched`: every subsystem keeps its
+    dimension and the physical joint state is unchanged (the generic joint-state comparison already
+    covers the latter; a physically neutral re-ordering of tensor factors is not a change)."""
     V = []
     a, res, o0, o1 = T.a, T.res, T.o0, T.o1
     _, entry, target, n = a
@@ -439,9 +442,12 @@ def _judge_resize(T):
     ok = res.value is True
     if res.value not in (True, False, None):
         ok = bool(res.value)
+    dims_changed = [s for s in o0.sub if o0.sub[s]["dims"] != o1.sub[s]["dims"]]
+    lvl_changed = [s for s in o0.sub if o0.sub[s]["level"] != o1.sub[s]["level"]]
     if n < 1:
-        if ok or T.canon0 != T.canon1:
-            V.append(_viol("C10", "down-refuse", T, "bad-size-accepted", f"resize({n}) returned {res.value!r}"))
+        if ok or dims_changed or lvl_changed:
+            V.append(_viol("C10", "down-refuse", T, "bad-size-accepted",
+                           f"resize({n}) returned {res.value!r}, dims changed for {dims_changed}"))
         return V
     if d0 > 0 and n > d0:
         if not ok:
@@ -453,16 +459,18 @@ def _judge_resize(T):
             if d1 != n:
                 V.append(_viol("C10", "down-ok", T, "down-wrong-dims", f"resize {d0}->{n} returned True, dims now {d1}"))
         else:
-            if T.canon0 != T.canon1:
+            if dims_changed or lvl_changed:
                 V.append(_viol("C10", "down-refuse", T, "refused-but-changed",
-                               f"resize {d0}->{n} returned {res.value!r} but the stored state changed (dims {d0}->{d1})"))
+                               f"resize {d0}->{n} returned {res.value!r} but dims changed for {dims_changed}, levels for {lvl_changed}"))
     elif d0 <= 0:
-        # dimension unset (label): any answer, but a reported failure must not change anything
-        if not ok and T.canon0 != T.canon1:
+        # dimension unset (label): a reported failure must not change anything
+        if not ok and (dims_changed or lvl_changed):
             V.append(_viol("C10", "down-refuse", T, "refused-but-changed",
-                           f"resize unset->{n} returned {res.value!r} but state changed (dims {d0}->{d1})"))
+                           f"resize unset->{n} returned {res.value!r} but dims changed for {dims_changed}"))
         if ok and d1 != n:
             V.append(_viol("C10", "up", T, "up-wrong-dims", f"resize unset->{n} returned True, dims now {d1}"))
+    if set(dims_changed) - {target}:
+        V.append(_viol("C10", "dim-axis", T, "other-dims-changed", f"resize of {target} changed dims of {dims_changed}"))
     return V
 
 
@@ -548,3 +556,65 @@ def _judge_measurement(T):
                 if m0.ref.kinds[s] in "FP" and not o1.sub[s]["measured"]:
                     V.append(_viol("C09", "retire", T, "not-retired", f"{s} survived a destructive POVM"))
     return V
+
+
+# ---------------------------------------------------------------------------------------
+# C11: passive linear optics
+
+
+def _number_distribution(rho, dims):
+    """Distribution of the total photon number of the subsystems of a reduced state."""
+    import itertools
+    diag = np.real(np.diag(rho)).reshape(dims)
+    out = np.zeros(sum(d - 1 for d in dims) + 1)
+    for idx in itertools.product(*[range(d) for d in dims]):
+        out[sum(idx)] += diag[idx]
+    return out
+
+
+def judge_c11(T):
+    V = []
+    a, res, o0, o1, m0, m1 = T.a, T.res, T.o0, T.o1, T.m0, T.m1
+    if not res.ok or o1 is None:
+        if a[0] == "op" and a[3] in ("BS", "PhaseShift"):
+            V.append(_viol("C11", "su2", T, res.symptom(), res.exc_msg))
+        return V
+    if a[0] == "op" and a[3] in ("BS", "PhaseShift"):
+        modes = list(a[2])
+        names = list(m0.ref.names)
+        r0, why0 = o0.joint(names, m0.ref.dims)
+        r1, why1 = o1.joint(names, m1.ref.dims)
+        if r0 is not None and r1 is not None:
+            from .ref import Ref
+            def red(rho, model):
+                tmp = model.ref.copy()
+                tmp.rho = rho
+                return tmp.reduced(modes)
+            dims = [m0.ref.dims[s] for s in modes]
+            n0 = _number_distribution(red(r0, m0), dims)
+            n1 = _number_distribution(red(r1, m1), dims)
+            d = float(np.max(np.abs(n0 - n1)))
+            if d > TOL:
+                V.append(_viol("C11", "number", T, "number-not-conserved",
+                               f"total photon number distribution of {modes} changed by {d:.3e}: {np.round(n0, 6).tolist()} -> {np.round(n1, 6).tolist()}"))
+            d2 = _cmp(r1, m1.ref.rho)
+            if d2 > TOL:
+                V.append(_viol("C11", "su2", T, "mismatch", f"max|rho_impl-rho_ref|={d2:.3e}"))
+    if a[0] == "measure" and "mzi_phi" in getattr(m0, "tags", {}) and res.calls:
+        phi = m0.tags["mzi_phi"]
+        mode = a[2][0]
+        c, s_ = np.cos(phi / 2) ** 2, np.sin(phi / 2) ** 2
+        # photon found in the mode that carried the phase shifter with probability sin^2(phi/2)
+        exp1 = s_ if mode == m0.tags["mzi_arm"] else c
+        p = res.calls[0]["p"]
+        got1 = float(p[1]) if len(p) > 1 else 0.0
+        pref = m0.ref.populations(mode)
+        if abs(pref[1] - exp1) > 1e-9:
+            raise AssertionError(f"oracle self-check failed: reference {pref[1]} vs closed form {exp1}")
+        if abs(got1 - exp1) > PTOL or abs(float(p[0]) - (1 - exp1)) > PTOL:
+            V.append(_viol("C11", "mzi", T, "wrong-probability",
+                           f"phi={phi:.6f}: P(1 photon at {mode})={got1:.9f}, expected {exp1:.9f}"))
+    return V
+
+
+EXTRA = {"c11": judge_c11}
